@@ -4,7 +4,7 @@
    CPython side: Spec/Lnotab.v (readers addr2line / colines, assemblers asm_pre310 / asm_310). *)
 From PCD Require Import Base.PyBase Model.LineTable Spec.Lnotab Proofs.C10_Statements
   Proofs.LT_ExpandCollapse Proofs.LT_Lnotab Proofs.LT_310.
-From PCD Require Base.PyImp Gen.SrcLines Proofs.SrcLinesTie Proofs.SrcMapTie.
+From PCD Require Base.PyImp Gen.SrcLines Proofs.SrcLinesTie Proofs.SrcMapTie Proofs.SrcI2MTie.
 
 (* The property for co_lnotab: for every line program (3.7 or 3.8/3.9 assembler) and every code length n,
    the decoded mapping gives each instruction offset the line PyCode_Addr2Line gives, and re-encoding
@@ -113,6 +113,31 @@ Theorem C10_mapping_to_items_is_the_source : forall m,
   PCD.Gen.SrcLines.MappingToItemsLnotab.run m = mapping_to_items m false.
 Proof. intros m. split; [apply SrcMapTie.mapping_to_items_lt_tie | apply SrcMapTie.mapping_to_items_lnotab_tie]. Qed.
 Print Assumptions C10_mapping_to_items_is_the_source.
+
+(* stage 3, decoder side: both branches of items_to_mapping - the range filling of co_linetable and the walk over the
+   bytecode offsets of co_lnotab (an index-driven while with a nested while that absorbs zero-width entries, a
+   defaultdict of extra line offsets, TypeError on an entry without line) - translated statement by statement, are the
+   model's for ALL item lists and code lengths, with any fuel that covers the number of items for the nested loop; the
+   outer loop and the model run on the same fuel, step for step *)
+Theorem C10_items_to_mapping_is_the_source : forall F items mx,
+  PCD.Gen.SrcLines.ItemsToMappingLt.run F items mx
+  = match items_to_mapping items mx true with OK m => OK (lm_lines m, lm_adds m) | Err e => Err e end /\
+  ((length items <= F)%nat ->
+   PCD.Gen.SrcLines.ItemsToMappingLnotab.run F items mx
+   = match items_to_mapping_lnotab F items mx 0 0 0 [] [] with OK m => OK (lm_lines m, lm_adds m) | Err e => Err e end).
+Proof.
+  intros F items mx. split; [apply SrcI2MTie.items_to_mapping_lt_tie | apply SrcI2MTie.items_to_mapping_lnotab_tie].
+Qed.
+Print Assumptions C10_items_to_mapping_is_the_source.
+
+(* in particular with the fuel the model itself uses *)
+Theorem C10_items_to_mapping_lnotab_is_the_source : forall items mx,
+  PCD.Gen.SrcLines.ItemsToMappingLnotab.run (lnotab_fuel items mx) items mx
+  = match items_to_mapping items mx false with OK m => OK (lm_lines m, lm_adds m) | Err e => Err e end.
+Proof.
+  intros items mx. unfold items_to_mapping. apply SrcI2MTie.items_to_mapping_lnotab_tie. unfold lnotab_fuel. apply Nat.le_add_l.
+Qed.
+Print Assumptions C10_items_to_mapping_lnotab_is_the_source.
 
 (* non-vacuity of the tie: the translated loops really run (three splitting iterations here) *)
 Example C10_translated_loops_run :
